@@ -150,16 +150,18 @@ def run(ctx):
         cfg = cat[name]
         behs, _ = BR.behaviours(ctx, name, cfg, 3 if cfg.T // cfg.QStep <= 4 else 2, 60 if quick else 600, ctx.seed)
         traces = []
+        offs = cat[name].offsets()
         for beh in behs:
             qs = BR.history(beh)
+            cfg = cat[name].shifted(offs[(k // len(combos) + k) % len(offs)])      # origin of the real time axis, in rotation
             steps = BR.structural_replay(ctx, name, cfg, beh, "C07")
             if steps is not None:
                 traces.append((qs, BR.make_trace(cfg, steps)))
             sn, lv = combos[k % len(combos)]
             k += 1
             fails = P.check_no_crash(cfg, qs, P.SHAPES[sn], lv)
-            ctx.case((name, str(qs), sn, lv), nontrivial=any(h["nn"] > 1 for h in beh["hist"]), trace=steps is not None,
-                     sample=dict(cfg=name, history=qs, shape=sn, levy=lv))
+            ctx.case((name, str(qs), sn, lv, cfg.off), nontrivial=any(h["nn"] > 1 for h in beh["hist"]), trace=steps is not None,
+                     sample=dict(cfg=name, history=qs, shape=sn, levy=lv, origin=cfg.t(0)))
             for kind, det in fails[:2]:
                 ctx.violation(dict(cfg=name, kind=kind, exc=det.get("exc")),
                               f"{kind} on history {qs}: {det}", replay=dict(cfg=cfg.as_dict(), queries=qs, levy=lv, shape=sn))
